@@ -1,5 +1,5 @@
 CONSTANTS
-  Modes = {"cm", "up"}
+  Modes = {"cm"}
   MaxW = 2
   MaxT = 10
   MaxC = 2
